@@ -214,7 +214,11 @@ func CheckMain(prop, tier string) int {
 		"coverage": cov, "assumptions": s.Assumptions, "wall_s": wall, "violations": nviol,
 	}
 	bz, _ := json.MarshalIndent(ev, "", " ")
-	evp := filepath.Join(VerifDir(), "evidence", prop+".json")
+	evdir := filepath.Join(VerifDir(), "evidence")
+	if d := os.Getenv("OPSIM_EVIDENCE_DIR"); d != "" {
+		evdir = d // used by tools/seedeval.sh so that runs against a deliberately broken tree do not overwrite real evidence
+	}
+	evp := filepath.Join(evdir, prop+".json")
 	_ = os.MkdirAll(filepath.Dir(evp), 0o755)
 	if err := os.WriteFile(evp, bz, 0o644); err != nil {
 		fmt.Fprintf(os.Stderr, "cannot write evidence: %v\n", err)
